@@ -99,46 +99,50 @@ type vfE2Chan struct {
 }
 
 type vfE2Topic struct {
-	t       int
-	name    string
-	paused  bool
-	chans   map[int]*vfE2Chan
-	pending []int
-	acked   []int
-	ackedB  uint64
-	dpubs   map[int]bool
+	t        int
+	name     string
+	paused   bool
+	chans    map[int]*vfE2Chan
+	pending  []int
+	acked    []int
+	ackedB   uint64
+	unackedN int
+	unackedB uint64
+	dpubs    map[int]bool
 }
 
 type vfE2H struct {
-	out     *vfOut
-	cmds    *bufio.Writer
-	cmdsF   *os.File
-	r       *vfRand
-	n       *NSQD
-	dir     string
-	tcpAddr string
-	httpURL string
-	cfg     vfE2Cfg
-	topics  map[int]*vfE2Topic
-	conns   map[int]*vfE2Conn
-	byCID   map[int64]int
-	pubc    *vfE2Conn
-	nextK   int
-	nextSeq int
-	ids     map[int]MessageID
-	sizes   map[int]int
-	topicOf map[int]int
-	fails   []string
-	hist    map[string]int
-	busyMu  sync.Mutex
-	busy    map[int64]bool
-	nbusy   int64
-	nOps    int
-	aborted bool
-	quiet   bool // replay mode prints side by side
-	epoch   int
-	depth   int
-	last    []string
+	out       *vfOut
+	cmds      *bufio.Writer
+	cmdsF     *os.File
+	r         *vfRand
+	n         *NSQD
+	dir       string
+	tcpAddr   string
+	httpURL   string
+	cfg       vfE2Cfg
+	topics    map[int]*vfE2Topic
+	conns     map[int]*vfE2Conn
+	byCID     map[int64]int
+	pubc      *vfE2Conn
+	nextK     int
+	nextSeq   int
+	ids       map[int]MessageID
+	sizes     map[int]int
+	topicOf   map[int]int
+	fails     []string
+	hist      map[string]int
+	busyMu    sync.Mutex
+	busy      map[int64]bool
+	nbusy     int64
+	nOps      int
+	aborted   bool
+	quiet     bool // replay mode prints side by side
+	epoch     int
+	depth     int
+	last      []string
+	micro     bool         // a micro-step schedule ran in this episode: the atomic invariant is not expected
+	guardGate atomic.Value // func(): called at proto.pump.afterGuard
 }
 
 var vfE2Barrier = []byte("ffffffffffffffff")
@@ -247,6 +251,8 @@ func (h *vfE2H) start(cfg vfE2Cfg) {
 		h.busy[g] = true
 		h.busyMu.Unlock()
 	})
+	h.guardGate.Store(func() {})
+	h.micro = false
 	VerifSetHook("proto.pump.afterGuard", func(string) {
 		g := vfE2Gid()
 		h.busyMu.Lock()
@@ -255,6 +261,7 @@ func (h *vfE2H) start(cfg vfE2Cfg) {
 			atomic.AddInt64(&h.nbusy, -1)
 		}
 		h.busyMu.Unlock()
+		h.guardGate.Load().(func())()
 	})
 	h.pubc = h.dial(0)
 	h.cmd(fmt.Sprintf("conf memq=%d maxfile=%d maxrdy=%d mt=%d maxmt=%d maxreq=%d", cfg.memq, cfg.maxfile, cfg.maxrdy, cfg.mtMs, cfg.maxmtMs, cfg.maxreq))
@@ -677,9 +684,10 @@ func (h *vfE2H) tdump(tp *vfE2Topic) {
 	mc := atomic.LoadUint64(&rt.messageCount)
 	mb := atomic.LoadUint64(&rt.messageBytes)
 	// direct oracle (C13.2): topic counters = what was acknowledged
-	if mc != uint64(len(tp.acked)) || mb != tp.ackedB {
-		h.fail("topic-count", "topic t%d message_count=%d message_bytes=%d but %d messages / %d bytes were acknowledged",
-			tp.t, mc, mb, len(tp.acked), tp.ackedB)
+	// (+ the prefix a failed MPUB enqueued before its write error: counted, never acknowledged)
+	if mc != uint64(len(tp.acked)+tp.unackedN) || mb != tp.ackedB+tp.unackedB {
+		h.fail("topic-count", "topic t%d message_count=%d message_bytes=%d but %d messages / %d bytes were acknowledged (+ %d / %d enqueued by failed MPUBs)",
+			tp.t, mc, mb, len(tp.acked), tp.ackedB, tp.unackedN, tp.unackedB)
 	}
 	h.emit(fmt.Sprintf("tdump %d", tp.t), fmt.Sprintf("depth=%d bdepth=%d mc=%d mb=%d paused=%s chans=[%s]",
 		rt.Depth(), rt.backend.Depth(), mc, mb, vfE2B(rt.IsPaused()), strings.Join(css, " ")))
@@ -1112,13 +1120,13 @@ type vfE2JCh struct {
 	Paused        bool     `json:"paused"`
 }
 type vfE2JT struct {
-	TopicName    string     `json:"topic_name"`
-	Channels     []vfE2JCh  `json:"channels"`
-	Depth        int64      `json:"depth"`
-	BackendDepth int64      `json:"backend_depth"`
-	MessageCount uint64     `json:"message_count"`
-	MessageBytes uint64     `json:"message_bytes"`
-	Paused       bool       `json:"paused"`
+	TopicName    string    `json:"topic_name"`
+	Channels     []vfE2JCh `json:"channels"`
+	Depth        int64     `json:"depth"`
+	BackendDepth int64     `json:"backend_depth"`
+	MessageCount uint64    `json:"message_count"`
+	MessageBytes uint64    `json:"message_bytes"`
+	Paused       bool      `json:"paused"`
 }
 
 func (h *vfE2H) httpGet(path string) (int, []byte) {
